@@ -49,6 +49,10 @@ def goals_for(line, idx):
             cl = "(cos (rad %s))" % R(lat)
             slt = "(%s / cos %s)" % (sl, rr)
             out.append(("rlon_%d" % idx, "Rabs (cos %s - (cos %s - %s * %s) / (sqrt (1 - %s * %s) * %s)) <= 1 / 100000000" % (lonD, rr, slt, sl, slt, slt, cl), "unfold rad, Rearth"))
+            # the same law in its sine form, sin lonD * cos lat = sin r, to one part in a million of sin r: unlike the
+            # cosine form it constrains the width at small radii too (the cosine of a small angle is 1 to 1e-8 whatever
+            # the angle is: that goal could not see the 1% loss repaired by 7efb257)
+            out.append(("rlonsin_%d" % idx, "Rabs (sin %s * %s - sin %s) <= sin %s / 1000000 + 1 / 1000000000000000" % (lonD, cl, rr, rr), "unfold rad, Rearth"))
     elif tag == 82 and len(a) >= 11:
         clat, clon, m = bf(a[0]), bf(a[1]), bf(a[2])
         plat, plon = bf(a[4]), bf(a[5])
